@@ -22,7 +22,9 @@ Faithful model of the SEARCH of `lrpar/src/lib/cpctplus.rs` + `lrpar/src/lib/dij
 * `u16` costs: `checked_add` is modelled (`U16MAX`); a neighbour whose cost overflows is dropped, and
   running out of representable costs returns no nodes, as in the code.
 * Panics (`unwrap` on an empty stack, missing goto, `unreachable!()` in the merge closure, index out
-  of bounds, `next_lexeme` past the end) are `.panic`; the unbounded loops take fuel (`.fuelOut`).
+  of bounds, `next_lexeme` past the end) are `.panic`; the unbounded loops take fuel (`.fuelOut`), and
+  so does every run of reductions under one lookahead (`feed … FUEL`): `.fuelOut` too, in the search
+  and (since `recoverTail` runs `rankCndsO`/`applyRepairsO`) in the post-processing.
 * NOT modelled: the deadline `finish_by` (the `neighbours` closure and `traverse` give up when
   `Instant::now() >= finish_by`). The model is the code with a deadline that never fires; the harness
   only looks at parses that took < 450 ms in all, which cannot have hit the 500 ms recovery budget.
@@ -110,17 +112,8 @@ def mergeRepairs (old new : RTree) : Option RTree :=
     | .merge p r v => some (.merge p r (new :: v))
     | .term => none
 
-/-- result of a part of the search that may panic or run out of (model) fuel -/
-inductive Out (α : Type) where
-  | ok (a : α)
-  | panic
-  | fuelOut
-deriving Inhabited
-
-def Out.map {α β : Type} (f : α → β) : Out α → Out β
-  | .ok a => .ok (f a)
-  | .panic => .panic
-  | .fuelOut => .fuelOut
+/- `Out` (a proper answer / a panic of the real code / the model's fuel ran out) is defined in
+`Model/Out.lean`, so that the post-processing model (`Model/RankImpl.lean`) can use it too. -/
 
 /-- the parser the recoverer works for: grammar, table, the token ids of the lexemes, `token_cost`,
 `PARSE_AT_LEAST` -/
@@ -335,22 +328,27 @@ def countSeqsAlts : List RTree → Nat
 end
 
 /-- what `recover` does with the success nodes `dijkstra` returned: `collect_repairs`, `rank_cnds`,
-`simplify_repairs`, `apply_repairs` of the first reported sequence -/
+`simplify_repairs`, `apply_repairs` of the first reported sequence. `.panic`: `rpr_seqs[0]` on an empty
+group, a crash of `lr_upto` (`rankCndsO`, `applyRepairsO`), `rnk_rprs[0]` on an empty list.
+`.fuelOut`: the constant `FUEL` of `feed` ran out inside `rank_cnds`/`apply_repairs` — the model cannot
+say what the real code (which has no such bound) does; it is NOT counted as a panic. -/
 def recoverTail (E : Env) (hs : List Seq → List Seq) (avoid : Nat → Bool) (lexStart : Nat → Nat)
     (win : Nat) (start : Pos) : List PNode → Out (Pos × List Seq)
   | [] => .ok (start, [])
   | cnd :: cnds =>
-    match rankCnds E.G E.A E.w win start (collectRepairs start.pos (cnd :: cnds)) with
-    | none => .panic
-    | some r =>
+    match rankCndsO E.G E.A E.w win start (collectRepairs start.pos (cnd :: cnds)) with
+    | .panic => .panic
+    | .fuelOut => .fuelOut
+    | .ok r =>
       if r.isEmpty then .ok (start, [])
       else
         match simplify hs avoid lexStart r with
         | [] => .panic
         | s0 :: rest =>
-          match applyRepairs E.G E.A E.w start s0 with
-          | none => .panic
-          | some c' => .ok (c', s0 :: rest)
+          match applyRepairsO E.G E.A E.w start s0 with
+          | .panic => .panic
+          | .fuelOut => .fuelOut
+          | .ok c' => .ok (c', s0 :: rest)
 
 /-- `CPCTPlus::recover`: the search, then `recoverTail`. Returns the configuration parsing continues
 from and the reported sequences. `hs` is the order in which the `HashSet` of `simplify_repairs` hands
